@@ -75,6 +75,9 @@ def configs(tier):
     cfgs.append(S.VisitLeaves(kind="generic", depth=1, W=2, fail_item=(1, 0, 1), fail_exc="runtime", quiet_messages=True))
     cfgs.append(S.Transform(depth=1, W=2, fail_item=(1, 1, 0), fail_exc="oserror", quiet_messages=True))
     cfgs.append(S.MultiTan(nimg=2, W=2, fail_item=(1,), fail_exc="runtime", quiet_messages=True))
+    # 16 leaves, 4 queue slots: after a worker died the dispatcher repeatedly finds the queue full while the other
+    # worker is busy (every schedule within 3 departures from the default order; the whole graph in thorough)
+    cfgs.append(S.VisitLeaves(kind="generic", depth=2, W=2, fail_item=(2, 0, 0), fail_exc="runtime", max_deviations=3 if tier == "quick" else None))
     # more images after the failing one than the bounded queue holds (2 x workers + 1): if the surviving
     # worker stopped early, the producer would block for ever
     cfgs.append(S.MultiTan(nimg=6, W=2, fail_item=(0,), fail_exc="valueerror"))
@@ -309,12 +312,80 @@ def _work(cfg):
     return part
 
 
+def optimized_configs():
+    """One failing item per stage, explored again in an interpreter started with -O (asserts compiled out)."""
+    S = stages
+    return [
+        S.VisitLeaves(kind="generic", depth=1, W=2, fail_item=(1, 0, 1), fail_exc="runtime"),
+        S.Transform(depth=1, W=2, fail_item=(1, 1, 0), fail_exc="oserror"),
+        S.Walk(kind="filtered", depth=2, W=2, accepted=WALK3, fail_item=(1, 1, 1), fail_exc="valueerror"),
+        S.MultiTan(nimg=2, W=2, fail_item=(1,), fail_exc="runtime"),
+        S.MultiWcs(nimg=2, W=2, fail_item=(0,), fail_exc="oserror"),
+    ]
+
+
+def optimized_subrun_main():
+    """Entry point of the `python -O` child: explores the configurations and prints one JSON document."""
+    import json
+    import sys
+
+    out = []
+    for cfg in optimized_configs():
+        part = stages.explore_to_part(cfg, PROP, max_wall=600)
+        sp = serial_reference(cfg)
+        out.append({
+            "name": cfg.name, "states": part.states, "transitions": part.transitions, "executions": part.executions,
+            "not_exhausted": part.counters.get("configurations_not_exhausted", 0) + part.counters.get("driver_crashes", 0),
+            "violations": [[sig, detail, rp] for sig, (detail, rp) in list(part.violations.items()) + list(sp.violations.items())],
+        })
+    sys.stdout.write("\nVERIF-SUBRUN-JSON " + json.dumps({"optimize": sys.flags.optimize, "configs": out}) + "\n")
+
+
+def optimized_subrun(rep):
+    """Runs the exploration of optimized_configs() in a child interpreter started with -O and merges the result."""
+    import json
+    import subprocess
+    import sys
+
+    from vt import build
+
+    verif = os.path.dirname(os.path.dirname(os.path.abspath(__file__)))
+    code = "import sys; sys.path.insert(0, %r); from vt import build; build.activate_repo(); from checks import c19; c19.optimized_subrun_main()" % verif
+    env = dict(os.environ)
+    env["PYTHONHASHSEED"] = "0"
+    p = subprocess.run([sys.executable, "-O", "-W", "ignore", "-c", code], cwd=verif, env=env, stdout=subprocess.PIPE, stderr=subprocess.PIPE, text=True, timeout=3600)
+    line = [l for l in p.stdout.splitlines() if l.startswith("VERIF-SUBRUN-JSON ")]
+    if p.returncode != 0 or not line:
+        rep.errors.append("the -O child interpreter failed (exit %r): %s" % (p.returncode, (p.stderr or p.stdout)[-800:]))
+        return
+    doc = json.loads(line[-1][len("VERIF-SUBRUN-JSON "):])
+    if doc["optimize"] < 1:
+        rep.errors.append("the child interpreter did not run optimized")
+        return
+    part = Part()
+    for c in doc["configs"]:
+        part.states += c["states"]
+        part.transitions += c["transitions"]
+        part.executions += c["executions"]
+        part.evaluations += c["executions"]
+        part.nontrivial_n += c["states"]
+        part.count("configurations_explored_under_python_-O")
+        if c["not_exhausted"]:
+            part.count("configurations_not_exhausted")
+        for sig, detail, rp in c["violations"]:
+            rp = dict(rp or {})
+            rp["python_optimize"] = True
+            part.violation("python-O/%s" % sig, "[interpreter started with -O] %s" % detail, rp)
+    rep.merge(part)
+
+
 def run(tier, seed):
     rep = Report(PROP, tier, seed, "model_checking")
     rep.rule = (
         "for every parallel stage and every single failing item: stateful exhaustive exploration of all interleavings "
         "of the real stage code over the virtual multiprocessing layer (fault enumeration x schedules); states = "
-        "distinct canonical states; plus the serial reference run per configuration"
+        "distinct canonical states; plus the serial reference run per configuration; five configurations (one per stage) are explored a second time in a child "
+        "interpreter started with -O"
     )
     rep.assumptions = stages.ASSUMPTIONS + ["single fault: exactly one item fails per run; at least two workers (parallel=1 selects the serial path)"]
     cfgs = configs(tier)
@@ -324,11 +395,27 @@ def run(tier, seed):
     for c in cfgs:
         c.seed = seed
     par.pmap(_work, cfgs + ["read-fault-serial"], rep)
+    optimized_subrun(rep)
     stages.finish_model_report(rep)
     return rep.finish()
 
 
 def replay(payload):
+    import sys
+
+    if payload["replay"].get("python_optimize") and sys.flags.optimize < 1:
+        # found under -O: replay it in an interpreter started the same way
+        import json
+        import subprocess
+        import tempfile
+
+        verif = os.path.dirname(os.path.dirname(os.path.abspath(__file__)))
+        with tempfile.NamedTemporaryFile("w", suffix=".json", delete=False) as f:
+            json.dump(payload, f)
+        try:
+            return subprocess.run([sys.executable, "-O", "-W", "ignore", "-m", "vt.main", PROP, "--replay", f.name], cwd=verif).returncode
+        finally:
+            os.unlink(f.name)
     if payload["replay"].get("read_fault"):
         p = Part()
         read_fault_serial(p)
